@@ -44,7 +44,8 @@ func tunnelMesh(collisionFree bool, maxN int) *Mesh {
 	}
 	lat := []time.Duration{0, 2 * time.Millisecond, 20 * time.Millisecond, 120 * time.Millisecond}[simrt.Choose(4, "latency")]
 	m.Net.DefaultLatency = func(l *simnet.Link) [2]time.Duration { return [2]time.Duration{lat, lat} }
-	simrt.Eventf("tunnel mesh n=%d collisionFree=%v edges=%v latency=%v", len(m.Nodes), collisionFree, m.Edges, lat)
+	m.TunnelExit = 1 + simrt.Choose(len(m.Nodes)-1, "exit")
+	simrt.Eventf("tunnel mesh n=%d collisionFree=%v edges=%v latency=%v exit=%d", len(m.Nodes), collisionFree, m.Edges, lat, m.TunnelExit)
 	return m
 }
 
@@ -56,8 +57,13 @@ func drawTunnel(m *Mesh, collisionFree bool, maxBytes int) *Tunnel {
 	t := &Tunnel{}
 	t.Kind = tunnelKinds[simrt.Choose(len(tunnelKinds), "kind")]
 	if collisionFree {
+		// one ingress and ONE exit per run: every agent then sees the tunnels'
+		// stream ids on one inbound and one outbound connection only. (Tunnels
+		// that leave the chain at different agents are not collision-free: a
+		// close frame arriving from downstream for id k after its relay entry is
+		// gone falls through to the local exit/forward handler's stream k.)
 		t.Ingress = 0
-		t.Exit = 1 + simrt.Choose(len(m.Nodes)-1, "exit")
+		t.Exit = m.TunnelExit
 	} else {
 		t.Ingress = simrt.Choose(len(m.Nodes), "ingress")
 		t.Exit = simrt.Choose(len(m.Nodes), "exit")
